@@ -140,7 +140,11 @@ Proof. exact legacy_fit_refuted. Qed.
 
 (** Bridge: where the implementation agrees with the model, its outcome satisfies the property
     checker (all clauses of [plan_ok], the closed forms of the two zip318 functions, the stored-
-    parts validation), for every oracle of the family.  [rng_flag]: the harness saw the same plan
+    parts validation), for every oracle of the family; and an [engine::plan_migration_with]
+    outcome that agrees with the model under SOME oracle (the one refusing every layout but the
+    kept one) satisfies every oracle-free clause, reserves exactly the real layout's transaction
+    count times the fee, and reports NothingToMigrate / UnfundableSplit exactly when the canonical
+    split is empty / non-empty.  [rng_flag]: the harness saw the same plan
     under a second RNG seed (the model has no RNG to quantify over). *)
 Theorem C16_agree_implies_property : forall c,
   wf_case c = true -> rng_flag c = true -> run_case c = true -> prop_case c = true.
